@@ -53,6 +53,8 @@ def option_signature(v):
         shapes = sorted({(r["cig"][0][0], r["cig"][-1][0]) for r in v["recs"] if r.get("cig")})
         ops = sorted({o for r in v["recs"] for o, _ in r.get("cig", [])})
         items += [("cigar.shapes", shapes), ("cigar.ops", ops), ("nrecs", len(v["recs"]))]
+    if isinstance(v.get("R"), list) and v["R"]:
+        items += [("R.leading-gap", v["R"][0] == "-"), ("R.trailing-gap", v["R"][-1] == "-")]
     if isinstance(v.get("feats"), list):
         items += [("feats", [(f.get("strand"), len(f.get("segs", [])), f.get("cstart"), f.get("named")) for f in v["feats"]])]
     return tuple(sorted((k, str(x)) for k, x in items))
